@@ -175,6 +175,8 @@ def dep_desc(rnd: random.Random) -> dict[str, Any]:
     d: dict[str, Any] = {"name": name(rnd), "extras": extras(rnd), "marker": marker(rnd), "python": None, "py_first": rnd.random() < 0.5}
     if rnd.random() < 0.2:
         d["python"] = rnd.choice(PY_RANGES)
+    # membership in extras the way Factory records it (`dependency._in_extras = [...]`), for markers without `extra`
+    d["in_extras"] = rnd.sample(["a", "b", "foo-bar", "c"], rnd.choice([1, 1, 2])) if "extra" not in d["marker"] and rnd.random() < 0.25 else []
     if k < 0.45:
         d["kind"] = "registry"
         d["constraint"] = constraint(rnd, poetry_ops=True) or "*"
